@@ -218,6 +218,8 @@ func contractsFor(c *Ctx, prop string) *bounds.Hooks {
 	switch prop {
 	case "C05":
 		return c05Hooks(c)
+	case "C08":
+		return c08Hooks(c)
 	}
 	return nil
 }
